@@ -7,6 +7,7 @@
    head(S) - nil where P resp. S is empty.  [stored T vals j] is what the trie
    returns for key j: its supplied bytes, or nil when the trie stores no values. *)
 From Slim Require Import Base Keys Model TrieInv BuildProofs QueryProofs OrderProofs SearchProofs.
+From Slim Require Import BitmapRank Bits Msg MsgProofs.
 
 Definition retained_idx (o : opts) (keys : list key) (vals : option (list (list byte))) : list nat :=
   map e_idx (kept (root_subset o keys vals)).
@@ -45,3 +46,20 @@ Example C09_example :
   exists T, build (normalize ex_opt) ex_keys ex_vals = Ok T /\
             search T ["098"%byte] = Ok (Some (Some ["001"%byte]), Some (Some ["002"%byte]), Some (Some ["003"%byte])).
 Proof. split; [vm_compute; reflexivity|]. eexists. split; vm_compute; reflexivity. Qed.
+
+(* ---- the same through the bit-level message (sub-check L3 ties Msg.v to the code) ---- *)
+Theorem C09_search_exact_neighbours_message :
+  forall (ropt : raw_opt) keys vals T m vs i k P S fuel,
+    build (normalize ropt) keys vals = Ok T -> encode_trie T = Val m -> init_vars m = Val vs ->
+    trie_height T <= fuel ->
+    nth_error keys i = Some k ->
+    retained_idx (normalize ropt) keys vals = P ++ i :: S ->
+    msearch (Datatypes.S fuel) m vs k = Ok (option_map (stored T vals) (last_opt P),
+                                Some (stored T vals i),
+                                option_map (stored T vals) (hd_opt S)).
+Proof.
+  intros ropt keys vals T m vs i k P S fuel Hb Em Ev Hf Hk Hr.
+  rewrite (msearch_search _ _ _ _ _ _ _ _ Hb Em Ev Hf).
+  exact (search_retained (normalize ropt) keys vals T i k P S Hb Hk Hr).
+Qed.
+Print Assumptions C09_search_exact_neighbours_message.
